@@ -188,7 +188,7 @@ func run(r *ev.Run, cfg props.Cfg) {
 			for i := 0; i < per; i++ {
 				n := 2 + rng.Intn(2)
 				if rng.Intn(12) == 0 {
-					n = []int{11, 12, 25, 101}[rng.Intn(4)] // key names depend on the participant count
+					n = []int{9, 10, 11, 12, 25, 100, 101}[rng.Intn(7)] // key names depend on the participant count (powers of ten are the edges)
 				}
 				app := gen.AppKind(rng.Intn(3))
 				w := mexplore.NewWellFormedWorld(rng, n, rng.Intn(n), app, 1+rng.Intn(2))
